@@ -200,11 +200,19 @@ func hasSig(rc *RunCtx, sig string) *Violation {
 // minimise shrinks both tapes while a violation with the same signature persists.
 func minimise(t *testing.T, p *Property, tier, sig string, scen, sched []int32, budget int) ([]int32, []int32, int) {
 	tries := 0
+	began := time.Now()
+	wall := time.Duration(envInt("VERIF_MIN_WALL_S", 40)) * time.Second
 	test := func(a, b []int32) bool {
 		if tries >= budget {
 			return false
 		}
+		if time.Since(began) > wall {
+			// long scenarios (histories of hundreds of exchanges) shrink slowly: whatever has been reached is reported
+			tries = budget
+			return false
+		}
 		tries++
+		heartbeat.Store(time.Now().UnixNano()) // each attempt is a run of its own for the wall-clock watchdog
 		rc := replayOnce(t, p, tier, a, b, false)
 		return rc.Infra == "" && hasSig(rc, sig) != nil
 	}
